@@ -830,8 +830,18 @@ def record_block_requests(ctx, rec, Ir, rule='FORMULA'):
     J2.heap = dict(Ir.heap)
     spec = ctx.spec(rec, 'ITE(FI == NF - 1 and self.num_blocks % self.blocks_per_file != 0, '
                          'self.num_blocks % self.blocks_per_file, self.blocks_per_file)', env={'FI': fl['index'], 'NF': nf}, I=J2)
+    trip = bl['trip']
+    # closed form of the same count: for 0 <= i < ceil(N/B),  min(N - i*B, B)  is B except in a final partial file, where it is
+    # N mod B  (integer arithmetic identity; N, B read from the recorder's attributes, i the file index)
+    ta = trip.single_atom()
+    if ta is not None and ta.kind == 'call' and ta.args[0] == 'min' and len(ta.args[1]) == 2 and not ta.args[2]:
+        Bt = ctx.spec(rec, 'self.blocks_per_file', I=J2)
+        rest = ctx.spec(rec, 'self.num_blocks - FI * self.blocks_per_file', env={'FI': fl['index']}, I=J2)
+        got = {x.key for x in ta.args[1]}
+        if got == {Bt.key, rest.key}:
+            trip = spec
     ctx.formula(rule, 'blocks requested for file i == remainder in the last file, else blocks_per_file (num_blocks in total)', rec,
-                bl['trip'], spec, node=bl['node'], construct='block loop trip count')
+                trip, spec, node=bl['node'], construct='block loop trip count')
 
 
 # --------------------------------------------------------------------------- functions and the helpers extracted from them
